@@ -7,7 +7,6 @@
 use std::sync::{LockResult, TryLockResult};
 
 pub use shuttle::future::block_on;
-pub use shuttle::sync::atomic::{AtomicBool, AtomicI8};
 pub use shuttle::sync::MutexGuard;
 
 /// `shuttle::sync::Mutex` with the rest of std's surface that `rc.rs` relies
@@ -56,3 +55,37 @@ pub fn sched_point() {
   let a = shuttle::sync::atomic::AtomicBool::new(false);
   let _ = a.load(std::sync::atomic::Ordering::SeqCst);
 }
+
+macro_rules! controlled_atomic {
+  ($name:ident, $prim:ty) => {
+    /// The controlled atomic of the runtime, with a scheduling point *after*
+    /// every operation as well (the runtime itself only switches before one):
+    /// a check-then-act sequence that starts with a load can then be
+    /// interrupted right after the load.
+    #[derive(Debug, Default)]
+    pub struct $name(shuttle::sync::atomic::$name);
+
+    impl $name {
+      #[inline]
+      pub fn new(v: $prim) -> Self {
+        Self(shuttle::sync::atomic::$name::new(v))
+      }
+
+      #[inline]
+      pub fn load(&self, order: std::sync::atomic::Ordering) -> $prim {
+        let v = self.0.load(order);
+        sched_point();
+        v
+      }
+
+      #[inline]
+      pub fn store(&self, v: $prim, order: std::sync::atomic::Ordering) {
+        self.0.store(v, order);
+        sched_point();
+      }
+    }
+  };
+}
+
+controlled_atomic!(AtomicI8, i8);
+controlled_atomic!(AtomicBool, bool);
